@@ -92,6 +92,8 @@ def parse_specs(text, fname='<spec>'):
             cur.blocks.append((d, loop if d in ('loop_begin', 'loop_end') else 0, '\n'.join(body)))
         elif d == 'index_loop':
             cur.index_loops.append((loop, arg))
+        elif d == 'values_mut_loop':
+            cur.index_loops.append((loop, 'values_mut:' + arg))
         elif d == 'iter':
             cur.iters[loop] = arg
         elif d == 'params':
@@ -107,7 +109,7 @@ def parse_specs(text, fname='<spec>'):
             while body and not body[-1].strip():
                 body.pop()
             cur.clauses.append((loop, d, arg or None, '\n'.join(body)))
-        elif d in ('insert', 'rewrite', 'drop', 'rewrite_all'):
+        elif d in ('insert', 'rewrite', 'drop', 'rewrite_all', 'lift_closure'):
             if not (i < len(lines) and lines[i].strip() == '<<<'):
                 raise SpecError('%s:%d expected <<<' % (fname, i + 1))
             i += 1
@@ -236,8 +238,13 @@ def find_loops(text, body_a):
             nx = toks[s[n + 1]]
             if nx.k == rsx.P and nx.s == '<':
                 continue
-        # body = first '{' at depth 0 after keyword
+        # body = first '{' at depth 0 after keyword (for `for`: after the `in`)
         j = n + 1
+        if t.s == 'for':
+            while j < len(s) and not (toks[s[j]].k == rsx.ID and toks[s[j]].s == 'in'):
+                if toks[s[j]].k == rsx.P and toks[s[j]].s in rsx.OPEN:
+                    j = s.index(rsx.match_close(toks, s[j]))
+                j += 1
         while j < len(s):
             tj = toks[s[j]]
             if tj.k == rsx.P and tj.s in '([':
@@ -324,6 +331,26 @@ def _fn_end_pos(text, body_a):
     return toks[inner[last_end]].a
 
 
+def rule_R14_values_mut_loop(text, lp, key, what):
+    toks, s, arrow, where, body = _fn_layout(text)
+    loops = find_loops(text, toks[s[body]].a)
+    if lp < 1 or lp > len(loops):
+        raise LostAnchor('%s: loop %d not found' % (what, lp))
+    kw_a, br_a = loops[lp - 1]
+    header = text[kw_a:br_a]
+    m = re.match(r'^for\s+([A-Za-z_][A-Za-z_0-9]*)\s+in\s+(.+?)\s*\.\s*values_mut\s*\(\s*\)\s*$', header, re.S)
+    if not m:
+        raise LostAnchor('%s: loop %d is not `for v in m.values_mut()`: %r' % (what, lp, header))
+    var, expr = m.group(1), m.group(2)
+    ltoks = rsx.tokenize(text)
+    bi = next(i for i, t in enumerate(ltoks) if t.a == br_a)
+    ce = rsx.match_close(ltoks, bi)
+    close_a = ltoks[ce].a
+    return (text[:kw_a] + 'let %s_vec = hm_keys(&%s);\n            for %s in %s_vec.iter() ' % (key, expr, key, key)
+            + '{ if let Some(%s) = hm_get_mut(&mut %s, %s) {' % (var, expr, key)
+            + text[br_a + 1:close_a] + '} ' + text[close_a:])
+
+
 def rule_R13_index_loop(text, lp, idx, what):
     """for PAT in EXPR.iter_mut() { BODY }  ->
        let mut IDX: usize = 0; while IDX < EXPR.len() { let PAT = &mut EXPR[IDX]; BODY; IDX += 1; }"""
@@ -358,7 +385,28 @@ def inject(text, fs, oblig_lines=None, what=''):
     is preceded by a marker comment `/*@ob name*/` so that line numbers can be
     mapped back after assembly."""
     rewrites = []
+    fs.lifted = []
     for (op, arg, pat, rep) in fs.edits:
+        if op == 'lift_closure':
+            rule, _, fname = arg.partition(' ')
+            repl, _, sig = rep.partition('\n+++\n')
+            hits = find_pattern(text, pat)
+            if len(hits) != 1:
+                raise LostAnchor('%s @lift_closure: pattern matched %d times: %r' % (fs.path, len(hits), pat.strip()[:60]))
+            a, b = hits[0]
+            ltoks = rsx.tokenize(text)
+            oi = next(i for i, t in enumerate(ltoks) if t.b == b)   # the '(' ending the pattern
+            ce = rsx.match_close(ltoks, oi)
+            inner = text[ltoks[oi].b:ltoks[ce].a]
+            cl = find_closures('(' + inner + ')', 0)
+            if not cl or not cl[0][4]:
+                raise LostAnchor('%s @lift_closure: argument is not a block closure' % fs.path)
+            (pa, pb, ba, bb, _blk) = cl[0]
+            body = ('(' + inner + ')')[ba:bb]
+            text = text[:a] + repl.strip() + text[ltoks[ce].b:]
+            fs.lifted.append((fname.strip(), sig.strip() + ' ' + body))
+            rewrites.append((rule, 'closure passed to %s lifted into fn %s; call replaced by %s' % (' '.join(pat.split()), fname.strip(), ' '.join(repl.split())[:60])))
+            continue
         if op == 'insert':
             mode, _, nm = arg.partition(' ')
             if mode not in ('before', 'after'):
@@ -381,8 +429,12 @@ def inject(text, fs, oblig_lines=None, what=''):
     if fs.kind != 'fn':
         return ''.join(a + '\n' for a in fs.attrs) + text, rewrites
     for (lp, idx) in fs.index_loops:
-        text = rule_R13_index_loop(text, lp, idx, fs.path)
-        rewrites.append(('R13', 'loop %d: for .. in X.iter_mut() -> index loop over X' % lp))
+        if idx.startswith('values_mut:'):
+            text = rule_R14_values_mut_loop(text, lp, idx.split(':', 1)[1], fs.path)
+            rewrites.append(('R14', 'loop %d: for V in M.values_mut() -> let ks = hm_keys(&M); for k in ks.iter() { if let Some(V) = hm_get_mut(&mut M, k) {..} }' % lp))
+        else:
+            text = rule_R13_index_loop(text, lp, idx, fs.path)
+            rewrites.append(('R13', 'loop %d: for .. in X.iter_mut() -> index loop over X' % lp))
 
     # loops first (offsets further down the text), then the signature
     toks, s, arrow, where, body = _fn_layout(text)
